@@ -77,3 +77,62 @@ Proof.
     apply text_eqb_true, H1, I2.
   - intros g Hg. rewrite forallb_forall in H2. apply text_eqb_true, H2. cbn. lia.
 Qed.
+
+(* ------------------------------------------------------------------ ids from 256 up (virtual-range ids without a Compiler, or garbage):
+   both sides print a prefix that does not depend on the id, followed by the decimal id *)
+Definition aj_big_prefix (T : aj_tables) (t : Z) : option text :=
+  match nth_error (aj_name_entries T) (Z.to_nat t), nth_error (aj_type_entries T) (Z.to_nat t) with
+  | Some (cnt, fidx, sidx, scnt), Some tidx =>
+      if (cnt <=? 256) && (scnt <=? 256)
+      then Some (if tidx =? 0 then s "<Reg-" ++ dec t ++ s ">?" else cstr_at (aj_type_strings T) tidx ++ [at_c])
+      else None
+  | _, _ => None
+  end.
+
+Definition model_big_prefix (t : Z) : text :=
+  match rt_of_code t with
+  | RtOther c => s "<Reg-" ++ dec c ++ s ">?"
+  | r => type_string r ++ [at_c]
+  end.
+
+Definition tables_match_big (T : aj_tables) : bool :=
+  forallb (fun t => match aj_big_prefix T t with Some p => text_eqb p (model_big_prefix t) | None => false end) types32.
+
+Lemma model_big t id : 256 <= id -> fmt_reg (rt_of_code t) id = model_big_prefix t ++ dec id.
+Proof.
+  intros Hid. unfold model_big_prefix.
+  assert (B : forall r, named r = true -> fmt_reg r id = (type_string r ++ [at_c]) ++ dec id).
+  { intros r Hr. unfold fmt_reg, x86_arch_name, gp_name, upto.
+    destruct (Z.ltb_spec id 0); [lia|].
+    destruct (Z.ltb_spec id 4); [lia|]. destruct (Z.ltb_spec id 8); [lia|]. destruct (Z.ltb_spec id 16); [lia|].
+    destruct (Z.ltb_spec id 32); [lia|]. destruct (Z.leb_spec id 6); [lia|]. rewrite andb_false_r.
+    destruct (Z.eqb_spec id 0); [lia|]. rewrite <- app_assoc. destruct r; try reflexivity; discriminate. }
+  destruct (rt_of_code t) eqn:E; try (apply B; reflexivity).
+  unfold fmt_reg, x86_arch_name. destruct (id <? 0); rewrite <- !app_assoc; reflexivity.
+Qed.
+
+Lemma tables_match_big_sound T : tables_match_big T = true ->
+  forall t id, 0 <= t < 32 -> 256 <= id -> aj_format_register T t id = fmt_reg (rt_of_code t) id.
+Proof.
+  intros H t id Ht Hid. unfold tables_match_big in H. rewrite forallb_forall in H.
+  assert (I1 : In t types32).
+  { unfold types32. apply in_map_iff. exists (Z.to_nat t). split; [lia|apply in_seq; lia]. }
+  specialize (H t I1). rewrite model_big by assumption.
+  unfold aj_big_prefix in H. unfold aj_format_register.
+  destruct (Z.leb_spec 0 t); [|lia]. destruct (Z.leb_spec t 31); [|lia]. cbn [andb].
+  destruct (nth_error (aj_name_entries T) (Z.to_nat t)) as [[[[cnt fidx] sidx] scnt]|]; [|discriminate].
+  destruct (nth_error (aj_type_entries T) (Z.to_nat t)) as [tidx|]; [|discriminate].
+  destruct ((cnt <=? 256) && (scnt <=? 256)) eqn:Eb; [|discriminate].
+  apply andb_prop in Eb as [E1 E2]. apply Z.leb_le in E1, E2.
+  destruct (Z.ltb_spec id scnt); [lia|]. destruct (Z.ltb_spec id cnt); [lia|].
+  apply text_eqb_true in H. rewrite <- H.
+  destruct (tidx =? 0); rewrite <- ?app_assoc; reflexivity.
+Qed.
+
+Lemma tables_match_all T : tables_match T = true -> tables_match_big T = true ->
+  forall t id, 0 <= t < 32 -> 0 <= id -> aj_format_register T t id = fmt_reg (rt_of_code t) id.
+Proof.
+  intros H1 H2 t id Ht Hid. destruct (Z.lt_ge_cases id 256).
+  - apply (proj1 (tables_match_sound T H1)); lia.
+  - apply (tables_match_big_sound T H2); lia.
+Qed.
